@@ -11,7 +11,7 @@ VARIABLES l
 
 TraceLog == ndJsonDeserialize(IOEnv.TRACE)
 N == Len(TraceLog)
-Chunk == 2000
+Chunk == 500
 
 OptsOf(ob) == [rfc20 |-> (ob % 2) = 1, f5322 |-> ((ob \div 2) % 2) = 1, us |-> ((ob \div 4) % 2) = 1]
 
